@@ -80,6 +80,13 @@ class subnet(FieldType):
     def __repr__(self):
         return "{}({!r})".format(self._type, str(self))
 
+    def _pack(self):
+        return str(self)
+
+    @staticmethod
+    def _unpack(data):
+        return subnet(data)
+
 
 class SubnetList:
     subnets = None
